@@ -103,7 +103,7 @@ def main():
         "checks": checks,
         "not_applicable": na,
         "notes": "Controller: /verif/check (python3, stdlib only). Exit 0 held / 1 violation / 2 harness error. "
-                 "Known findings: /verif/known_findings.jsonl. Replays: /verif/out/replays/<id>/.",
+                 "Known findings: /verif/known_findings.txt. Replays: /verif/out/replays/<id>/.",
     }
     with open(os.path.join(VERIF, "MANIFEST.json"), "w") as f:
         json.dump(manifest, f, indent=1)
